@@ -1,7 +1,8 @@
 (* C13 — property theorems only. *)
 From Coq Require Import List NArith ZArith Bool String.
 Import ListNotations.
-From VF Require Import common.Lin C13.Model C13.Proofs C13.Corr C13.Table.
+From VF Require Import C11.Proofs C11.ProofsR C11.ProofsS.
+From VF Require Import common.Lin C13.Model C13.Proofs C13.Corr C13.Table C13.ProofsC C13.ProofsD C13.Deadlock.
 From VF Require C13.TableAsIs.
 Local Open Scope N_scope.
 
@@ -46,6 +47,41 @@ Theorem inbox_linearizable : forall threads sched,
 Proof. intros. apply atomic_lin. Qed.
 Print Assumptions inbox_linearizable.
 
+(* ... and w.r.t. the DOCUMENTED key-value store: a stack of wrappers of ANY depth over the in-memory provider, used by
+   any number of goroutines under any schedule, is linearizable w.r.t. the CONTRACT machine [spec_step] (the store of
+   spi/storage's documentation: latest value and tags, deleted keys not found, queries = entries satisfying every
+   criterion, batches in order, atomically) — composition of the interleaving theorem with C11's simulations.
+   Guards as in C11: batches carry no ':' tags (caching/batching stacks); also single-criterion queries when a
+   formatting layer is present; the C11 guard [wfk_op] for random-key formatting layers. *)
+Theorem mem_stack_linearizable_contract : forall s threads sched, mem_stack s = true ->
+  (forall t, In t threads -> forallb wf_op t = true) ->
+  lin_strong store op out (spec_step false) []
+    (tr (exec (atomic_prog (step (prov_of s))) (start (init (prov_of s)) threads) sched)).
+Proof. intros s threads sched Hs Hg.
+  apply (contract_lin wf_op false (prov_of s) (stack_rel s)); [apply stack_sim|apply stack_rel_init|]; assumption. Qed.
+Print Assumptions mem_stack_linearizable_contract.
+
+Theorem plain_stack_linearizable_contract : forall s threads sched, plain_stack s = true ->
+  (forall t, In t threads -> forallb wf1_op t = true) ->
+  lin_strong store op out (spec_step false) []
+    (tr (exec (atomic_prog (step (prov_of s))) (start (init (prov_of s)) threads) sched)).
+Proof. intros s threads sched Hs Hg.
+  apply (contract_lin wf1_op false (prov_of s) (stack_rel s)); [apply plain_stack_sim|apply plain_stack_rel_init|]; assumption. Qed.
+Print Assumptions plain_stack_linearizable_contract.
+
+Theorem rand_stack_linearizable_contract : forall s threads sched, rand_stack s = true ->
+  (forall t, In t threads -> forallb wfk_op t = true) ->
+  lin_strong store op out (spec_step false) []
+    (tr (exec (atomic_prog (step (prov_of s))) (start (init (prov_of s)) threads) sched)).
+Proof. intros s threads sched Hs Hg.
+  apply (contract_lin wfk_op false (prov_of s) (rstack_rel s)); [apply rand_stack_sim|apply rand_stack_rel_init|]; assumption. Qed.
+Print Assumptions rand_stack_linearizable_contract.
+
+Example contract_nonvacuous :
+  let s := SCached (SBatched 2 (SCached SMem)) in
+  mem_stack s = true /\ forallb wf_op [Put 1 1 [(1, 1)]; Batch [(1, 2, []); (2, 2, [])]; GetBulk [1; 2]; Query [(1, 0); (2, 0)]] = true.
+Proof. vm_compute. split; reflexivity. Qed.
+
 (* ---------- the source follows the discipline the model assumes: over the table regenerated from /repo ---------- *)
 (* THE obligations that break when an edit removes or narrows a lock. *)
 Theorem lock_table_ok : covers = true.
@@ -59,6 +95,46 @@ Print Assumptions atomic_regions_ok.
 Theorem lock_order_acyclic : lock_order_ok = true.
 Proof. vm_compute. reflexivity. Qed.
 Print Assumptions lock_order_acyclic.
+
+(* ---------- no deadlock ---------- *)
+(* the action sequences of all entry points (every acquisition with the mutexes held at that point, as extracted from
+   /repo) acquire in strictly increasing rank (rank = longest "held -> acquired" chain) and release everything;
+   "close" callbacks from a store to its provider are made with no mutex held *)
+Theorem lock_order_ranked : footprints_ordered = true /\ callbacks_unlocked = true.
+Proof. vm_compute. split; reflexivity. Qed.
+Print Assumptions lock_order_ranked.
+
+(* DEADLOCK FREEDOM for the mutexes of a package instance, mutex acquisition made explicit: ANY number of goroutines,
+   each calling ANY sequence of entry points of the table, under ANY schedule: in every reachable configuration in
+   which some goroutine is unfinished, some goroutine can move (an Acquire blocks while any goroutine holds the
+   mutex; Go mutexes are not re-entrant). *)
+Theorem no_deadlock : forall (gs : list (list Gen_C13.meth)) (sched : list nat),
+  (forall g m, In g gs -> In m g -> In m entries) ->
+  let ts := lexec string String.eqb (map (mkL string []) (map (flat_map footprint) gs)) sched in
+  existsb (unfinished string) ts = true -> existsb (enabled string String.eqb ts) ts = true.
+Proof. intros gs sched Hg. apply table_no_deadlock; [|exact Hg]. vm_compute. reflexivity. Qed.
+Print Assumptions no_deadlock.
+
+(* the general statement: any goroutines that acquire in strictly increasing rank and end with nothing held *)
+Theorem ordered_locking_never_deadlocks :
+  forall (lock : Type) (leqb : lock -> lock -> bool), (forall a b, leqb a b = true <-> a = b) ->
+  forall (rank : lock -> nat) (progs : list (list (act lock))) (sched : list nat),
+  (forall p, In p progs -> runb lock leqb rank [] p = Some []) ->
+  let ts := lexec lock leqb (map (mkL lock []) progs) sched in
+  existsb (unfinished lock) ts = true -> existsb (enabled lock leqb ts) ts = true.
+Proof. exact no_deadlock_reachable. Qed.
+Print Assumptions ordered_locking_never_deadlocks.
+
+(* non-vacuity: two goroutines taking the two nested formattedstore mutexes; one holds the provider lock, the other is
+   blocked on it; the first can move *)
+Definition nested_prog : list (act string) :=
+  [Acq string "formattedstore.FormattedProvider.lock"; Acq string "formattedstore.formatStore.lock";
+   Rel string "formattedstore.formatStore.lock"; Rel string "formattedstore.FormattedProvider.lock"]%string.
+Example deadlock_nonvacuous :
+  (runb string String.eqb lock_rank [] nested_prog = Some [])
+  /\ (let ts := lexec string String.eqb (map (mkL string []) [nested_prog; nested_prog]) [0; 1; 1]%nat in
+   map (enabled string String.eqb ts) ts = [true; false]).
+Proof. vm_compute. split; reflexivity. Qed.
 
 (* the tree as found (frozen table of 34f49d8): the same checks name the defects the -race harness confirmed *)
 Theorem lock_table_asis_refuted :
@@ -120,6 +196,21 @@ Theorem kms_import_asis_refuted :
     (hist_of (tr (exec (atomic_prog kms_step) (start [] k_threads) k_sched)) 2) = true.
 Proof. vm_compute. split; reflexivity. Qed.
 Print Assumptions kms_import_asis_refuted.
+
+(* ... and "no order" is literal: EVERY list of operation ids, of any length, is rejected by the certificate checker
+   for these four histories (the checker accepts only duplicate-free orders of ids of the history that contain every
+   completed operation, hence only the n! enumerated ones: ProofsD.valid_in_orders) *)
+Theorem asis_refuted_for_every_order :
+  (forall w, valid_linearization (step (cached true (mem true))) out_eqb (init (cached true (mem true)))
+     (hist_of (tr (exec (cached_asis_prog (mem true)) (start (init (cached true (mem true))) c_threads) c_sched)) 4) w = false) /\
+  (forall w, valid_linearization (step (batched 1 (mem true))) out_eqb (init (batched 1 (mem true)))
+     (hist_of (tr (exec (batched_asis_prog 1 (mem true)) (start (init (batched 1 (mem true))) b_threads) b_sched)) 2) w = false) /\
+  (forall w, valid_linearization (mem_step true) out_eqb []
+     (hist_of (tr (exec mem_asis_prog (start [] m_threads) m_sched)) 3) w = false) /\
+  (forall w, valid_linearization kms_step kout_eqb []
+     (hist_of (tr (exec kms_asis_prog (start [] k_threads) k_sched)) 2) w = false).
+Proof. repeat split; apply no_linearization_forall; vm_compute; reflexivity. Qed.
+Print Assumptions asis_refuted_for_every_order.
 
 (* ---------- non-vacuity ---------- *)
 (* a run of the one-step cachedstore with three goroutines in which operations overlap and the linearization order
